@@ -30,6 +30,8 @@ SHAPES = {
     # a directory literally called like one of git's one-letter prefixes
     "prefixdir": "b/util.rs",
     "prefixdir2": "w/a/conf.toml",
+    # ... with a blank in the name (under --no-prefix the `diff --git x x` line then has three blanks)
+    "prefixdir-space": "a/my notes.txt",
 }
 LABELS = {"modified": "MOD", "added": "ADD:", "removed": "DEL:", "renamed": "REN:", "copied": "CPY:"}
 DEFAULT_LABELS = {"modified": "", "added": "added:", "removed": "removed:", "renamed": "renamed:",
@@ -456,7 +458,7 @@ def menus(tier):
     mnemonic = [(ev, "plain", p, "") for ev in ("modified", "renamed_changed", "mode")
                 for p in (("i/", "w/"), ("c/", "w/"), ("o/", "w/"), ("c/", "i/"), ("1/", "2/"))] + \
         [("empty", "plain", ("1/", "2/"), "")] + \
-        [(ev, shape, ("", ""), "") for ev in ("modified", "mode", "added") for shape in ("prefixdir", "plain")]   # --no-prefix
+        [(ev, shape, ("", ""), "") for ev in ("modified", "mode", "added") for shape in ("prefixdir", "plain", "prefixdir-space", "space")]   # --no-prefix
     core = [(ev, "plain", ("a/", "b/"), "fn frag(x)") for ev in EVENTS]
     return full, mnemonic, core
 
